@@ -1,6 +1,7 @@
 import GdcVerif.Gen.JpegLs
 import GdcVerif.Lemmas.JpegLsT87
 import GdcVerif.Spec.T87
+import GdcVerif.Lemmas.JpegLsCtx
 /-!
   Generated context-update kernels (`Context.UpdateContext`, `RunModeContext.UpdateVariables`,
   `RunModeContext.ComputeMap`) vs T.87 code segments A.12/A.13 and A.21/A.23 (`Spec/T87.lean`).
@@ -61,4 +62,60 @@ theorem riMap_eq (c : RunModeContext) (e k : Int) :
     by_cases h5 : 2 * c.NN ≥ c.N <;>
     simp [h1, h2, h3, h4, h5] <;> omega
 
+
+/-- the states a scan reaches (RESET = 64, |Errval| ≤ 2^16) -/
+def CtxReach (c : Context) : Prop :=
+  (0 ≤ c.A ∧ c.A ≤ c.N * 65536) ∧ (1 ≤ c.N ∧ c.N ≤ 64) ∧ (-c.N < c.B ∧ c.B ≤ 0) ∧ (-128 ≤ c.C ∧ c.C ≤ 127)
+
+theorem ctxReach_step (c : Context) (e near : Int) (p : T87.Params) (hN : p.NEAR = near) (hR : p.RESET = 64)
+    (h : CtxReach c) (he : -65536 ≤ e ∧ e ≤ 65536)
+    (hm : -131072 ≤ e * (2 * near + 1) ∧ e * (2 * near + 1) ≤ 131072) :
+    ctxSpec (Context.UpdateContext c e near 64) = T87.contextUpdate p (ctxSpec c) e ∧
+    CtxReach (Context.UpdateContext c e near 64) := by
+  obtain ⟨hA, hNr, hB, hC⟩ := h
+  have hg1 : c.A + Go.abs e < 16777216 := by unfold Go.abs; split <;> omega
+  have hg2 : -16777216 < c.B + e * (2 * near + 1) ∧ c.B + e * (2 * near + 1) < 16777216 := by omega
+  have heq := updateContext_eq c e near 64 p hN hR hg1 hg2
+  have hinv := JpegLsLemmas.updateContext_inv c e near 64 (by omega) hNr hC
+  refine ⟨heq, ?_, hinv.1, hinv.2.2, hinv.2.1⟩
+  -- the A component, read off the specification side
+  have hAeq : (Context.UpdateContext c e near 64).A = (T87.contextUpdate p (ctxSpec c) e).A := by
+    rw [← heq]; rfl
+  have hNeq : (Context.UpdateContext c e near 64).N = (T87.contextUpdate p (ctxSpec c) e).N := by
+    rw [← heq]; rfl
+  rw [hAeq, hNeq]
+  have hbA : ∀ q : T87.Ctx, (T87.updateBias q).A = q.A ∧ (T87.updateBias q).N = q.N := by
+    intro q; unfold T87.updateBias; split
+    · exact ⟨rfl, rfl⟩
+    · split <;> exact ⟨rfl, rfl⟩
+  unfold T87.contextUpdate
+  rw [(hbA _).1, (hbA _).2]
+  unfold T87.updateVariables
+  simp only [ctxSpec, hR]
+  unfold Go.abs at hg1
+  split <;> simp only [] <;> split at hg1 <;> rename_i hneg <;> simp only [hneg, if_true, if_false] <;> omega
+
+/-- every state reached from a `CtxReach` state by any sequence of bounded error values is again
+    `CtxReach`, and the code's run of updates IS the standard's run of A.12 + A.13 -/
+theorem ctxReach_run (near : Int) (p : T87.Params) (hN : p.NEAR = near) (hR : p.RESET = 64) :
+    ∀ (es : List Int) (c : Context), CtxReach c →
+      (∀ e ∈ es, (-65536 ≤ e ∧ e ≤ 65536) ∧ (-131072 ≤ e * (2 * near + 1) ∧ e * (2 * near + 1) ≤ 131072)) →
+      ctxSpec (es.foldl (fun c e => Context.UpdateContext c e near 64) c) =
+        es.foldl (fun q e => T87.contextUpdate p q e) (ctxSpec c) ∧
+      CtxReach (es.foldl (fun c e => Context.UpdateContext c e near 64) c)
+  | [], c, h, _ => ⟨rfl, h⟩
+  | e :: es, c, h, hes => by
+    have he := hes e (List.mem_cons_self ..)
+    have st := ctxReach_step c e near p hN hR h he.1 he.2
+    have ih := ctxReach_run near p hN hR es _ st.2 (fun e' h' => hes e' (List.mem_cons_of_mem _ h'))
+    simp only [List.foldl_cons]
+    rw [← st.1]
+    exact ih
+
+theorem ctxReach_init (range : Int) (hr : 2 ≤ range ∧ range ≤ 65536) : CtxReach (NewContext range) := by
+  unfold NewContext CtxReach
+  simp only []
+  have : Int.tdiv (range + 32) 64 = (range + 32) / 64 := Int.tdiv_eq_ediv_of_nonneg (by omega)
+  rw [this]
+  omega
 end JpegLsT87
